@@ -77,6 +77,9 @@ class World:
         self.warnings = []  # (category, text) of the op being executed
         self.plan = None  # fault / peer plan of the solve being executed
         self.compile_count = 0
+        self.eval_count = 0
+        self.eval_after_exit = 0
+        self.exited = False  # a solver entry of the current op has returned or raised
         self.cb_count = 0  # callback events within the current solve
         self.entry_count = 0  # solver entries within the current solve
         self.fired = []  # faults / peer behaviours that actually fired in this op
@@ -182,6 +185,15 @@ class World:
             "reclimit": sys.getrecursionlimit(),
         }
 
+    def swap_hook(self):
+        """The application installs another warnings.showwarning between two solves."""
+
+        def recorder2(message, category, filename, lineno, file=None, line=None):
+            self.warnings.append((category.__name__, str(message)))
+
+        self.recorder = recorder2
+        warnings.showwarning = recorder2
+
     def repair_globals(self):
         warnings.showwarning = self.recorder
         sys.setrecursionlimit(self.base_reclimit)
@@ -193,6 +205,9 @@ class World:
         self.fired = []
         self.plan = plan
         self.compile_count = 0
+        self.eval_count = 0
+        self.eval_after_exit = 0
+        self.exited = False
         self.cb_count = 0
         self.entry_count = 0
         self.cb_by_kind = {}
@@ -235,9 +250,37 @@ class World:
                     self._tick(2.0 ** -13)
                     self.fired.append({"fault": "compile", "k": f["k"], "kind": name, "exc": f["exc"], "seq": self.seq})
                     raise EXC[f["exc"]](f"injected {f['exc']} at compile call {f['k']} ({name})")
-            return real(*a, **k)
+            out = real(*a, **k)
+            if callable(out):
+                return self._wrap_eval(out, name)
+            return out
 
         return wrapped
+
+    def _wrap_eval(self, fn, name):
+        """Every evaluation of a compiled callable is a countable event: the plan may make the
+        k-th evaluation of the solve raise, or the j-th evaluation after the solver returned (the
+        post-solve feasibility check is made of those)."""
+
+        def evaluated(*a, **k):
+            p = self.plan
+            if p and "fault" in p and p["fault"]["site"] == "eval":
+                f = p["fault"]
+                self.eval_count += 1
+                hit = False
+                if "after_exit" in f:
+                    if self.exited:
+                        self.eval_after_exit += 1
+                        hit = self.eval_after_exit == f["after_exit"]
+                else:
+                    hit = self.eval_count == f["k"]
+                if hit:
+                    self._tick(2.0 ** -13)
+                    self.fired.append({"fault": "eval", "k": self.eval_count, "after_exit": self.exited, "kind": name, "exc": f["exc"], "seq": self.seq})
+                    raise EXC[f["exc"]](f"injected {f['exc']} at evaluation {self.eval_count} of a compiled callable ({name})")
+            return fn(*a, **k)
+
+        return evaluated
 
     def _peer_for(self, entry):
         p = self.plan or {}
@@ -432,6 +475,7 @@ class World:
             "nit": int(getattr(res, "nit", -1)),
         }
         ev["cb"] = dict(self.cb_by_kind)
+        self.exited = True
         return res
 
     # ------------------------------------------------------------------ linprog peer
